@@ -69,6 +69,8 @@ type Cluster struct {
 	RPCHook  func(ctx context.Context, method string, args, reply interface{}) error
 	// BgFault decides the fault for a proposal made by a background goroutine
 	BgFault func(t structs.MessageType) (fault string, desc string)
+	// FaultQueue: faults for the next proposals that carry none of their own
+	FaultQueue []string
 }
 
 type pendingProposal struct {
@@ -145,6 +147,10 @@ func (c *Cluster) hookRaftApply(t structs.MessageType, buf []byte) (any, error) 
 func (c *Cluster) propose(t structs.MessageType, buf []byte) (any, error) {
 	fault, gap, desc := c.curFault, c.curGap, c.curDesc
 	c.curFault, c.curGap = "", 0
+	if fault == "" && len(c.FaultQueue) > 0 {
+		// faults for the applies a leader routine makes on its own (one per apply, in order)
+		fault, c.FaultQueue = c.FaultQueue[0], c.FaultQueue[1:]
+	}
 	if fault == "not-leader" {
 		c.Run.Hit("fault.propose-not-leader")
 		return nil, raft.ErrNotLeader
@@ -249,6 +255,20 @@ func (c *Cluster) FailPending() {
 }
 
 func (c *Cluster) ClearLostReply() { c.lostReply = false }
+
+// TakeLostReply reports (and forgets) that a proposal was committed with its reply lost,
+// which in Raft means this server lost leadership while committing.
+func (c *Cluster) TakeLostReply() bool {
+	l := c.lostReply
+	c.lostReply = false
+	return l
+}
+
+// Failover replaces the leader: another replica with the same log takes over.
+func (c *Cluster) Failover() {
+	c.main(func() { c.failover() })
+	c.DrainBackground()
+}
 
 // ApplyRaw proposes a request built by the caller (an RPC endpoint stand-in); fault as for a
 // client command. No failover follows a lost reply.
